@@ -22,6 +22,18 @@ var commonMounts = []string{
 }
 
 var harnesses = map[string]*harnessConfig{
+	"h3": {
+		Package: "./cmd/telemetrygodev", Module: "godev", TestHosted: true,
+		// Only the uploader side is instrumented (transport, config stub): the
+		// handler chain runs its own goroutines (http.TimeoutHandler).
+		RootPkgs: "./internal/telemetry,./internal/upload",
+		Mounts: append(append([]string{}, commonMounts...),
+			"internal/verifsim/ref/refcfg=sim/ref/refcfg",
+			"internal/verifsim/ref/refreport=sim/ref/refreport",
+			"internal/verifsim/mgen=sim/mgen",
+			"godev/cmd/telemetrygodev=sim/harness/h3",
+			"internal/configstore=sim/shims/configstore"),
+	},
 	"h7": {
 		Package: ".", TestHosted: true,
 		RootPkgs: rootInstrumented,
@@ -235,5 +247,26 @@ var props = map[string]*propConfig{
 		Stub:        []string{"process creation, environment, os.Exit, log.Fatal: simulated process table", "internal/crashmonitor.Parent/Child (they take over crash output and stdin)", "internal/configstore.Download: spawns a simulated `go mod download` descendant that calls Start with the inherited environment, then returns an empty config", "upload server (always 200)", "clock and file modification times"},
 		Assumptions: []string{"simulated processes share one address space: package-level state of internal/counter (the default file) is shared by them", "the statement is only-if: whether a child must be launched when permitted is not checked"},
 		Probes:      []string{"spawned", "token-acquired", "mode-off", "token-2"},
+	},
+	"C12": {
+		Harness: "h3", Level: "exploration",
+		Families:    []family{{Name: "request-stream", Flags: map[string]string{"family": "requests"}, Quick: 2400, Thorough: 400000}},
+		QuickBudget: 100 * time.Second, ThoroughBudget: 20 * time.Minute, Chunk: 50,
+		Rule:        "one run = a stream of 3..14 requests to the real upload handler behind its real middleware chain and a real file-system bucket: all methods; bodies that are valid approved reports (incl. ~100 KiB ones and hostile X values), reports with exactly one field invalid (week not a date, config not semver, X = 0, one unapproved program/version/Go version/GOOS/GOARCH/counter/stack, near-miss names), arbitrary bytes, well-formed JSON of the wrong shape, truncated and oversize JSON, duplicates; delivered through a body reader with short reads, a mid-stream error or an early end; after every request the answer class and the recursive listing of the storage directory are compared with a map object store and the reference configuration semantics; clauses that depend only on a pure function of the body are claimed for the request-stream/history part only",
+		Real:        []string{"godev/cmd/telemetrygodev handleUpload + validate", "godev/internal/middleware chain (Log, Timeout, RequestSize, Recover)", "godev/internal/content error-to-status mapping", "godev/internal/storage FSBucket", "internal/config"},
+		Stub:        []string{"no socket: requests are handed to ServeHTTP with a ResponseRecorder", "client body stream simulated (short reads, errors, early EOF)", "GCS backend not run"},
+		Assumptions: []string{"a body whose delivered prefix is itself complete JSON followed by trailing bytes is not judged (the documentation does not say)", "the URL path is a clean /upload/<date> (paths are not in the property's quantifier)"},
+	},
+	"C11": {
+		Harness: "h3", Level: "exploration",
+		Families: []family{
+			{Name: "uploader-vs-server", Flags: map[string]string{"family": "server"}, Quick: 2400, Thorough: 300000},
+		},
+		QuickBudget: 100 * time.Second, ThoroughBudget: 20 * time.Minute, Chunk: 50,
+		Rule:        "one run = a generated upload configuration, 2..6 counter files (several programs, versions, Go versions, platforms incl. unlisted ones, near-miss counter and stack names), one real upload.Run whose every request is delivered by the simulated transport to the real upload handler configured with the same configuration (must answer 200); then each produced body is re-delivered six times with one field changed to a near-miss (program, version, Go version, GOOS, GOARCH, counter, stack first line): the handler must answer 4xx exactly when the reference semantics put the changed report outside the configuration",
+		Real:        []string{"internal/upload (uploader filter)", "godev/cmd/telemetrygodev validate/handleUpload + middleware", "internal/config"},
+		Stub:        []string{"transport simulated (no socket)", "configstore.Download stub", "counter files from the independent encoder", "local viewer side: see the viewer family when claimed"},
+		Assumptions: []string{"refcfg is the documented semantics"},
+		Probes:      []string{"uploader-bodies"},
 	},
 }
